@@ -140,6 +140,9 @@ def _parse(r):
                 pass
         elif s.startswith("<<") and s.endswith(">>"):
             r.tuples.append(_parse_tuple(s))
+    # with several workers the print order varies from run to run: make it canonical so that seeded
+    # sampling of the records is reproducible
+    r.records.sort(key=lambda x: json.dumps(x, sort_keys=True))
 
 
 def _parse_tuple(s):
